@@ -1083,4 +1083,34 @@ xd_join(int pat, int signvar, int n, const char *sep, char *buf, size_t bsz)
 	return k;
 }
 
+/* ---------- formats with bytes >= 0x80 among their first four bytes ----------
+ * every string over the format alphabet of length <= LH (the base) with one of {0x80, 0xc3, 0xff, the two-byte
+ * UTF-8 letter e-acute} inserted at every position 0..min(len, 3) */
+static const char *const xh_ins[] = {"\x80", "\xc3", "\xff", "\xc3\xa9"};
+#define XH_NINS	4
+static uint64_t
+xh_count(int lh)
+{
+	return nstrings(lh) * 4U * XH_NINS;
+}
+static size_t
+xh_format(uint64_t idx, char *buf)
+{
+	char base[16];
+	size_t bl, il, pos;
+	const char *ins = xh_ins[idx % XH_NINS];
+	idx /= XH_NINS;
+	pos = (size_t)(idx % 4U);
+	idx /= 4U;
+	bl = idx2str(idx, SF, base);
+	if (pos > bl) {
+		pos = bl;	/* (a duplicate of the position bl, harmless) */
+	}
+	il = strlen(ins);
+	memcpy(buf, base, pos);
+	memcpy(buf + pos, ins, il);
+	memcpy(buf + pos + il, base + pos, bl - pos + 1);
+	return bl + il;
+}
+
 #endif	/* VERIF_C10_COMMON_H */
